@@ -199,10 +199,25 @@ def runEpilogue (l : Locals) (c : Ctx) : List String → Outcome Ctx
     let c ← epilogueCall l c call
     runEpilogue l c rest
 
+/-- The prologue as this model transcribes it: the locale calls and `return`s of the source up to and
+including `uselocale(newloc)`, locals named by role, `?` = under a condition. -/
+def prologueAsModelled : List String :=
+  ["uselocale(NULL)", "?return", "duplocale(oldlocale)", "?return",
+   "newlocale(LC_NUMERIC_MASK,\"C\",duploc)", "?freelocale(duploc)", "?return", "uselocale(newloc)"]
+
+/-- Does the current source (as read by tools/extract/st_locale.py) still have the control skeleton
+that `parseEx` transcribes?  The prologue is the modelled one (so in particular the switch is not
+under a condition), nothing jumps to `out:` before `newloc` is set, and the body between the switch
+and `out:` makes no locale call.  When this fails `parseEx` is `fault`: the driver then disagrees with
+the implementation on every call and every theorem about `parseEx` stops checking. -/
+def skeletonOk : Bool :=
+  prologueLocaleEvents == prologueAsModelled && gotoOutBeforeSwitch == 0 && localeCallsInBody == 0
+
 /-- struct json_object *json_tokener_parse_ex(tok, str, len), locale-relevant skeleton.
 `sizeOk` = the `len` argument passes the INT32_MAX check; `err` = the `tok->err` the body and the
 checks after `out:` leave (any value: the locale handling does not depend on it). -/
 def parseEx (s : LState) (sizeOk : Bool) (inj : Inj) (exit : Exit) (err : Nat) : Outcome PRes := do
+  if !skeletonOk then .fault "parse_ex: the source no longer has the control skeleton this model transcribes" else
   let c : Ctx := ⟨s, []⟩
   -- locale_t oldlocale = uselocale(NULL); locale_t newloc;
   let (oldlocale, c) ← uselocale c none
@@ -267,29 +282,44 @@ def trimZeros (buf : Bytes) (p : Nat) : Bytes :=
   let (pl, q) := scanFrac (buf.drop p1) p1 p1
   if pl < q then buf.take (pl + 1) ++ buf.drop q else buf
 
+/-- `looks_numeric = is_plain_digit(buf[0]) || (size > 1 && buf[0] == '-' && is_plain_digit(buf[1]))`
+(buf[0] is the terminating NUL when the output is empty; buf[1] is read only when size > 1) -/
+def looksNumeric (buf : Bytes) (size : Nat) : Bool :=
+  let b0 := buf.getD 0 0
+  isPlainDigit b0 || (decide (size > 1) && b0 == cMinus && isPlainDigit (buf.getD 1 0))
+
+/-- `if (size < (int)sizeof(buf) - 2 && looks_numeric && !p && strchr(buf, 'e') == NULL &&
+format_drops_decimals) { strcat(buf, ".0"); size += 2; }` → (buf, size) -/
+def addPointZero (dropsDecimals : Bool) (buf : Bytes) (p : Option Nat) (size : Nat) : Bytes × Nat :=
+  if decide (size < serBufSize - 2) && looksNumeric buf size && p.isNone && (strchr buf cLowerE).isNone && dropsDecimals
+  then (buf ++ [cPoint, cZero], size + 2) else (buf, size)
+
+/-- `if (p && (flags & JSON_C_TO_STRING_NOZERO)) { …trim…; size = (int)strlen(buf); }` → (buf, size) -/
+def nozeroStep (nozero : Bool) (buf : Bytes) (p : Option Nat) (size : Nat) : Bytes × Nat :=
+  match p with
+  | some i => if nozero then (trimZeros buf i, (trimZeros buf i).length) else (buf, size)
+  | none => (buf, size)
+
+/-- `if (size >= (int)sizeof(buf)) size = sizeof(buf) - 1; printbuf_memappend(pb, buf, size);`
+with the two accesses checked: `buf` (plus its NUL) must fit `char buf[N]`, and memappend must not
+read past the NUL. -/
+def finish (buf : Bytes) (size : Nat) : Outcome Bytes :=
+  if buf.length ≥ serBufSize then .fault "double_to_json_string_format: write past char buf[N]"
+  else
+    let size := if size ≥ serBufSize then serBufSize - 1 else size
+    if size > buf.length then .fault "double_to_json_string_format: memappend reads past the terminating NUL"
+    else .ok (buf.take size)
+
 /-- Everything after `size = snprintf(buf, sizeof(buf), format, d)` for a finite double.
 `out` = the complete formatted output (no NUL inside), `dropsDecimals` = `format == std_format ||
 strstr(format, ".0f") == NULL`, `nozero` = `flags & JSON_C_TO_STRING_NOZERO`.  Result: the bytes handed
 to printbuf_memappend. -/
 def post (nozero dropsDecimals : Bool) (out : Bytes) : Outcome Bytes :=
-  let cap := serBufSize
-  if cap < 3 then .fault "double_to_json_string_format: char buf[N] too small for the model" else
-  let size := out.length
-  let buf := out.take (cap - 1)                  -- snprintf truncates and terminates
-  let (buf, p) := fixSep buf
-  let b0 := buf.getD 0 0                         -- buf[0] (the NUL when the output is empty)
-  let looksNumeric := isPlainDigit b0 || (decide (size > 1) && b0 == cMinus && isPlainDigit (buf.getD 1 0))
-  let addZero := decide (size < cap - 2) && looksNumeric && p.isNone && (strchr buf cLowerE).isNone && dropsDecimals
-  -- strcat(buf, ".0"): size < N - 2 keeps it inside the array
-  let (buf, size) := if addZero then (buf ++ [cPoint, cZero], size + 2) else (buf, size)
-  let (buf, size) := match p with
-    | some i => if nozero then (let b := trimZeros buf i; (b, b.length)) else (buf, size)
-    | none => (buf, size)
-  if buf.length ≥ cap then .fault "double_to_json_string_format: write past char buf[N]" else
-  -- if (size >= (int)sizeof(buf)) size = sizeof(buf) - 1;  printbuf_memappend(pb, buf, size);
-  let size := if size ≥ cap then cap - 1 else size
-  if size > buf.length then .fault "double_to_json_string_format: memappend reads past the terminating NUL"
-  else .ok (buf.take size)
+  -- snprintf truncates to N-1 bytes and terminates; `size` is the untruncated length
+  let fs := fixSep (out.take (serBufSize - 1))
+  let az := addPointZero dropsDecimals fs.1 fs.2 out.length
+  let nz := nozeroStep nozero az.1 fs.2 az.2
+  finish nz.1 nz.2
 
 /-- `snprintf(buf, …, "NaN" / "Infinity" / "-Infinity")` branches: no post-processing -/
 def nonFinite (nan neg : Bool) : Bytes :=
